@@ -107,6 +107,11 @@ def build_reference(case, d):
         cn = _names(rng, 'C', case['n_class'])
         sn = dict(zip(subs, _names(rng, 's', len(subs))))
         ln = _names(rng, 'k', L)
+    if case['seed'] % 3 == 1 and len(cn) >= 2:
+        # cortical-layer style names: one sibling's name is another's up to a slash
+        cn[0], cn[1] = 'L2/3', 'L2'
+        if len(subs) >= 2:
+            sn[subs[0]], sn[subs[1]] = 'L5/6 x', 'L5'
     NG = 2 * L + 3
     gn = _names(rng, rng.choice(['g', 'G', 'x']), min(NG, 16))
     gn += [f'h{j}' for j in range(NG - len(gn))]
